@@ -1,3 +1,87 @@
-From Regal Require Import Model.LspApply.
-Theorem c16_placeholder : True. Proof. exact I. Qed.
-Print Assumptions c16_placeholder.
+(* C16: text edits sent to the editor reproduce the intended text exactly.
+   Model: Model/Diff.v (diff.go + format.go), specification: Model/LspApply.v (LSP 3.17). *)
+From Regal Require Import Model.LspApply Proofs.DiffSound Proofs.DiffTotal.
+Open Scope Z_scope.
+
+(* For ALL pairs of byte strings: if ComputeEdits (the model) returns an edit list, then applying
+   it to `before` as the LSP specification prescribes gives exactly `after`; the edits are
+   ordered by start and none ends after the next one starts ([edits_ordered]); every position
+   has character 0 and a line between 0 and the number of lines of `before` ([edit_in_doc]). *)
+Theorem compute_edits_sound : forall (before after : str) (es : list text_edit),
+  compute_edits before after = Ok es ->
+  lsp_apply es before = Some after /\
+  edits_ordered es = true /\
+  forallb (edit_in_doc before) es = true.
+Proof. exact compute_edits_sound_proof. Qed.
+Print Assumptions compute_edits_sound.
+
+(* "within the document" without the clamp: if `before` is empty or ends with a line terminator,
+   every position is an existing position (line <= number of line terminators, character 0);
+   the specification's end-of-document clamp is needed only for the position just after an
+   unterminated last line (e.g. "a\nb" -> delete up to line 2). *)
+Theorem compute_edits_in_doc_strict : forall (before after : str) (es : list text_edit),
+  compute_edits before after = Ok es ->
+  open_tail before = false ->
+  forallb (edit_in_doc_strict before) es = true.
+Proof. exact compute_edits_in_doc_strict_proof. Qed.
+Print Assumptions compute_edits_in_doc_strict.
+
+(* For ALL pairs of byte strings the model returns an edit list: the forward pass of the Myers port
+   meets its `x == M && y == N` test within M+N rounds (so the trace is never nil), no slice index
+   is out of range, and the recursion fuel of the model is never exhausted. *)
+Theorem compute_edits_total : forall (before after : str),
+  exists es : list text_edit, compute_edits before after = Ok es.
+Proof. exact compute_edits_total_proof. Qed.
+Print Assumptions compute_edits_total.
+
+(* both together: the function is total and its result has the property *)
+Corollary compute_edits_correct : forall (before after : str),
+  exists es : list text_edit,
+    compute_edits before after = Ok es /\
+    lsp_apply es before = Some after /\
+    edits_ordered es = true /\
+    forallb (edit_in_doc before) es = true.
+Proof.
+  intros before after. destruct (compute_edits_total_proof before after) as [es H].
+  exists es. split; [exact H | exact (compute_edits_sound_proof before after es H)].
+Qed.
+Print Assumptions compute_edits_correct.
+
+(* the same at the level of lines, for any line type with a sound equality test: the operation
+   list turns a into b and is ordered, disjoint and inside both line lists *)
+Theorem operations_sound_lines : forall (A : Type) (eqb : A -> A -> bool),
+  (forall u v, eqb u v = true -> u = v) ->
+  forall (a b : list A) (ops : list op),
+  operations A eqb a b = Ok ops ->
+  ops_wf A a b ops 0 /\ apply_ops A a b ops 0 = b.
+Proof. exact operations_sound. Qed.
+Print Assumptions operations_sound_lines.
+
+Theorem operations_total_lines : forall (A : Type) (eqb : A -> A -> bool) (a b : list A),
+  exists ops : list op, operations A eqb a b = Ok ops.
+Proof. exact operations_total. Qed.
+Print Assumptions operations_total_lines.
+
+(* regression: the splitLines of the pinned commit (only "\n" ends a line) violates the statement
+   for a document with a lone CR: before = "a\rb\n", after = "" *)
+Theorem compute_edits_sound_pinned_refuted :
+  exists (before after : str) (es : list text_edit),
+    compute_edits_pinned before after = Ok es /\ lsp_apply es before <> Some after.
+Proof.
+  exists [97; 13; 98; 10]%N, []%N, [{| e_sl := 0; e_sc := 0; e_el := 1; e_ec := 0; e_text := [] |}].
+  split; [vm_compute; reflexivity | vm_compute; discriminate].
+Qed.
+Print Assumptions compute_edits_sound_pinned_refuted.
+
+(* non-vacuity: the hypothesis is met by a pair that needs deletes, inserts and the
+   end-of-document clamp ("a\nb" -> "b\nc\n"), and by one with CRLF and a lone CR *)
+Example compute_edits_sound_nonvacuous :
+  compute_edits [97; 10; 98]%N [98; 10; 99; 10]%N =
+  Ok [ {| e_sl := 0; e_sc := 0; e_el := 2; e_ec := 0; e_text := [] |};
+       {| e_sl := 2; e_sc := 0; e_el := 2; e_ec := 0; e_text := [98; 10]%N |};
+       {| e_sl := 2; e_sc := 0; e_el := 2; e_ec := 0; e_text := [99; 10]%N |} ].
+Proof. vm_compute. reflexivity. Qed.
+
+Example compute_edits_sound_nonvacuous_cr :
+  exists es, compute_edits [97; 13; 98; 13; 10; 99]%N [97; 13; 99; 10]%N = Ok es /\ (length es >= 2)%nat.
+Proof. eexists. split; [vm_compute; reflexivity | simpl; lia]. Qed.
